@@ -262,6 +262,13 @@ class Ctx:
         nfail = sum(s['sig_counts'].values())
         self.cov.setdefault('selftest', []).append({'label': label, 'corrupted': len(bad), 'rejected': nfail})
         if nfail < len(bad):
+            if self.failures:
+                # the tree under test already shows violations: a corrupted prediction can then coincide with what the
+                # (wrong) code does.  The self-test is a statement about the machinery on a correct tree; it must never
+                # turn a violation into a machinery error.
+                self.notes.append(f'{label}: binding self-test inconclusive on a tree with violations ({nfail}/{len(bad)} rejected)')
+                self.log(f'{label}: binding self-test inconclusive ({nfail}/{len(bad)} rejected; the tree shows violations)')
+                return
             raise MachineryError(f'{label}: binding self-test failed: {len(bad)} corrupted predictions, only {nfail} rejected')
         self.log(f'{label}: binding self-test ok ({nfail}/{len(bad)} corrupted predictions rejected)')
 
@@ -322,6 +329,10 @@ class Ctx:
                         # the trace module does not judge this event (its run leaves the model): corrupt another one
                         self.cov['trace_events_outside_model'] -= len(self.last_skips)
                         continue
+                    if self.failures or out:
+                        self.notes.append(f'{label}: trace binding self-test inconclusive on a tree with violations')
+                        done = True
+                        break
                     raise MachineryError(f'{label}: binding self-test failed: corrupted event {i + 1} was accepted')
                 self.cov.setdefault('selftest', []).append({'label': label, 'corrupted_event': i + 1, 'rejected': True})
                 self.log(f'{label}: binding self-test ok (corrupted event {i + 1} rejected)')
